@@ -35,7 +35,9 @@ NAME = 'C06/secret-key-protection'
 T0 = datetime.datetime(2024, 1, 1, tzinfo=timezone.utc)
 PREFS = dict(hashes=[HashAlgorithm.SHA256], ciphers=[SymmetricKeyAlgorithm.AES256], compression=[CompressionAlgorithm.ZLIB])
 HASH_NAMES = ['SHA1', 'SHA256', 'SHA512', 'SHA224', 'SHA384', 'MD5', 'RIPEMD160']
-PASSPHRASES = ['correct horse battery', 'pässwörd ☃ ключ', 'L' * 300, b'raw\xff\xfe\x00octets']
+# the fifth is text that is in no Unicode normal form (combining mark after its base letter, ANGSTROM/OHM/KELVIN SIGN): the octets that are
+# hashed are its UTF-8 octets as given
+PASSPHRASES = ['correct horse battery', 'pässwörd ☃ ключ', 'L' * 300, b'raw\xff\xfe\x00octets', 'a\u0308 \u212b\u2126\u212a e\u0301']
 SECRET_FIELDS = {1: ('d', 'p_', 'q_', 'u'), 2: ('d', 'p_', 'q_', 'u'), 3: ('d', 'p_', 'q_', 'u'), 16: ('x',), 17: ('x',), 18: ('s',), 19: ('s',), 22: ('s',)}
 
 
@@ -726,7 +728,7 @@ def component(tier='quick', seed=0, known=()):
     distinct = len({(c['part'], c['key'], c.get('cipher'), c.get('hash'), c.get('pw'), c.get('end'), c.get('usage'), c.get('s2k'), repr(c.get('alg')),
                      c.get('mode'), c.get('subs')) for c in cases}) + len(prefixes)
     out = {'name': NAME,
-           'bound': ('keys %s; protect() over %s (cipher, hash) pairs of %d ciphers x %d hashes, 4 passphrases (ASCII, UTF-8, 300 chars, bytes), scope end '
+           'bound': ('keys %s; protect() over %s (cipher, hash) pairs of %d ciphers x %d hashes, 5 passphrases (ASCII, UTF-8, 300 chars, bytes, text in no Unicode normal form), scope end '
                      'normal/exception/added subkey/nested wrong passphrase; foreign protected keys: usage 254/255 x S2K simple/salted/iterated x %d cipher/hash '
                      'pairs, GNU-dummy and smartcard stubs; all operation sequences of length <= %d over %d operations on %s (S2K count octet 0; %d of them '
                      'again with the default count octet 255); protect() with refused algorithms'
